@@ -268,6 +268,8 @@ func sameConfig(a, b ssa.Value) bool {
 }
 
 func checkC15(c *Ctx, r *Report) {
+	defer diffOrderRule(c, r)
+	defer pathNotKeptRule(c, r, "R15o")
 	r.Assumption("FlattenedKeys' set equality and CompareConfigs' partition are value-level and not decided; they read contexts through path(), which is right when the invariant holds")
 	setFn := c.Method("", "fields", "set")
 	setAtFn := c.Method("", "fields", "setAt")
@@ -2003,4 +2005,77 @@ func emptyPathRule(c *Ctx, r *Report) {
 		})
 		r.Check(bad == "", "R15m", c.FnName(fn), "no decision on an empty path text", c.Pos(pos), "no path text is compared with \"\"", "a path text ("+bad+") is compared with the empty string to tell the root: a top-level setting named \"\" has the empty path as well, so everything below it loses its leading separator (FlattenedKeys and PathOf report .x as x — the name of another setting; diff compares the wrong keys)")
 	}
+}
+
+// diffOrderRule (R15n): CompareConfigs relates the keys of the two configurations. Today it does so by membership (a
+// map from key to verdict), which needs nothing from FlattenedKeys but the set of keys. A comparison of the two lists
+// by position and order (a merge walk: `oldKeys[i] < newKeys[j]`) is correct only if both lists are sorted by exactly
+// that order — an agreement between a reader in package diff and a writer in the root package that no type states.
+// If the reader compares keys by the string order, the writer's last step must be sort.Strings on what it returns.
+func diffOrderRule(c *Ctx, r *Report) {
+	r.Rule("R15n", "CompareConfigs relates the keys of FlattenedKeys by equality and membership only; if it compares them by the string order, FlattenedKeys sorts what it returns with sort.Strings", 1)
+	cmp := c.Func("diff", "CompareConfigs")
+	fk := c.Method("", "Config", "FlattenedKeys")
+	// values that are elements of a FlattenedKeys result
+	fromKeys := func(v ssa.Value) bool {
+		for _, src := range Sources(v) {
+			ld, ok := src.(*ssa.UnOp)
+			if !ok || ld.Op != token.MUL {
+				continue
+			}
+			ia, ok := ld.X.(*ssa.IndexAddr)
+			if !ok {
+				continue
+			}
+			for _, s2 := range Sources(ia.X) {
+				if call, ok := s2.(*ssa.Call); ok && call.Call.StaticCallee() == fk {
+					return true
+				}
+			}
+		}
+		return false
+	}
+	ordered := ""
+	for _, f := range WithAnon(cmp) {
+		Instrs(f, false, func(in ssa.Instruction) {
+			bo, ok := in.(*ssa.BinOp)
+			if !ok {
+				return
+			}
+			switch bo.Op {
+			case token.LSS, token.GTR, token.LEQ, token.GEQ:
+			default:
+				return
+			}
+			if b, isB := bo.X.Type().Underlying().(*types.Basic); !isB || b.Info()&types.IsString == 0 {
+				return
+			}
+			if fromKeys(bo.X) || fromKeys(bo.Y) {
+				ordered = c.Pos(bo.Pos())
+			}
+		})
+	}
+	if ordered == "" {
+		r.OK("R15n", c.FnName(cmp), "keys related by membership", c.Pos(cmp.Pos()), "no ordered comparison of flattened keys: the verdict needs the sets of keys only")
+		return
+	}
+	// the writer's side: what FlattenedKeys returns went through sort.Strings, and through no other sort
+	sorted, other := false, ""
+	for _, ci := range CallsIn(fk, false) {
+		g := ci.Common().StaticCallee()
+		if g == nil || g.Pkg == nil || g.Pkg.Pkg.Path() != "sort" {
+			continue
+		}
+		if g.Name() == "Strings" {
+			for _, ret := range Returns(fk) {
+				if sameSrc(RetVal(ret, 0), ci.Common().Args[0]) {
+					sorted = true
+				}
+			}
+		} else {
+			other = g.Name()
+		}
+	}
+	r.Check(sorted && other == "", "R15n", c.FnName(cmp), "keys related by membership", c.Pos(cmp.Pos()), "ordered comparison at "+ordered+", and FlattenedKeys returns sort.Strings order",
+		"CompareConfigs compares flattened keys by the string order (at "+ordered+") but FlattenedKeys does not return them in sort.Strings order (other sort: "+other+"): where the two orders disagree (a.2 / a.10, http / http-alt) a key that both configurations have is reported as added and removed")
 }
